@@ -114,23 +114,24 @@ Proof.
   cbn [concat]. apply nl_ended_app; [apply H; left; reflexivity|apply IH; intros y Hy; apply H; right; exact Hy].
 Qed.
 
+Lemma vlines_nl cfg k vs : nl_ended (vlines cfg k vs).
+Proof. unfold vlines. apply concat_nl. intros x Hx. apply in_map_iff in Hx as [v [<- _]]. apply vline_nl. Qed.
+
 Lemma take_ordered_nl cfg : forall order m out m', take_ordered cfg order m = (out, m') -> nl_ended out.
 Proof.
   induction order as [|k r IH]; intros m out m' H; cbn [take_ordered] in H.
   - injection H as <- _. left. reflexivity.
-  - destruct (vm_remove k m) as [[v|] m1].
-    + destruct (take_ordered cfg r m1) as [out' m''] eqn:Ht. injection H as <- _.
-      apply nl_ended_app; [apply vline_nl|exact (IH _ _ _ Ht)].
-    + exact (IH _ _ _ H).
+  - destruct (vm_take k m) as [vs m1]. destruct (take_ordered cfg r m1) as [out' m''] eqn:Ht. injection H as <- _.
+    apply nl_ended_app; [apply vlines_nl|exact (IH _ _ _ Ht)].
 Qed.
 
 Lemma verbose_body_nl cfg m : nl_ended (verbose_body cfg m).
 Proof.
-  unfold verbose_body. destruct (vm_remove (cfg_k_source_rt cfg) m) as [src m1].
+  unfold verbose_body. destruct (vm_take (cfg_k_source_rt cfg) m) as [src m1].
   destruct (take_ordered cfg (cfg_order cfg) m1) as [out m2] eqn:Ht.
   apply nl_ended_app; [exact (take_ordered_nl _ _ _ _ _ Ht)|]. apply nl_ended_app.
   - apply concat_nl. intros x Hx. apply in_map_iff in Hx as [f [<- _]]. apply vline_nl.
-  - destruct src; [apply vline_nl|left; reflexivity].
+  - apply vlines_nl.
 Qed.
 
 (* no panic: every format of an accepted configuration is formatted *)
